@@ -71,14 +71,14 @@ impl Dictionary {
     /// Parses an existing dictionary file.
     pub fn from_existing(buffer: ByteSpan) -> Option<Dictionary> {
         let mut cursor = Cursor::new(buffer);
-        let mut dict = DictionaryHeader::read(&mut cursor).unwrap();
+        let mut dict = DictionaryHeader::read(&mut cursor).ok()?;
 
         let map_start = 0x8750u32;
         let map_size = 0x200u32;
 
         // fix up offsets
         for offset in &mut dict.block_offsets {
-            *offset = *offset + map_start + map_size;
+            *offset = offset.checked_add(map_start + map_size)?;
         }
 
         for i in 0..dict.block_lengths[0] / 2 {
@@ -125,13 +125,23 @@ impl Dictionary {
     fn list_words(&self) -> Option<Vec<String>> {
         let mut result = Vec::new();
         let lut = self.generate_index_rune_lookup_table();
+        // A healthy dictionary is a tree: it is walked in about as many steps as it has entries.
+        // A damaged one can contain cycles or shared sub-trees, so the walk is given a budget
+        // that is generous but linear in the size of the file.
+        let mut budget = 64 * self.header.entries.len() + 65536;
         for (id, v) in self.header.begin_node.iter().enumerate() {
             if *v == 0 {
                 continue;
             }
 
             let chara = Dictionary::index_to_rune(&lut, id as u32);
-            self.dump_dict_node(&mut result, *v as i32, String::from(chara as u8 as char))
+            self.dump_dict_node(
+                &mut result,
+                *v as i32,
+                String::from(chara as u8 as char),
+                0,
+                &mut budget,
+            )?;
         }
 
         Some(result)
@@ -161,11 +171,26 @@ impl Dictionary {
         }
     }
 
-    fn dump_dict_node(&self, vec: &mut Vec<String>, entry_id: i32, prev: String) {
-        let node = &self.header.entries[entry_id as usize];
+    /// Returns None when the node graph is damaged (dangling index, cycle, runaway size).
+    fn dump_dict_node(
+        &self,
+        vec: &mut Vec<String>,
+        entry_id: i32,
+        prev: String,
+        depth: usize,
+        budget: &mut usize,
+    ) -> Option<()> {
+        // no path in a tree is longer than the number of its entries
+        if depth > self.header.entries.len() {
+            return None;
+        }
+
+        let node = self.header.entries.get(entry_id as usize)?;
         for i in 0..node.sibling {
+            *budget = budget.checked_sub(1)?;
+
             let Some(current) = self.get_string(entry_id, i as i32) else {
-                return;
+                return Some(());
             };
 
             if node.child == 0 {
@@ -173,14 +198,19 @@ impl Dictionary {
                 continue;
             }
 
-            let value = self.header.inner_node[(node.child + i) as usize];
+            let value = *self
+                .header
+                .inner_node
+                .get(node.child.checked_add(i)? as usize)?;
             if value == 0 {
                 vec.push(prev.clone() + &current);
                 continue;
             }
 
-            self.dump_dict_node(vec, value as i32, prev.clone() + &current);
+            self.dump_dict_node(vec, value as i32, prev.clone() + &current, depth + 1, budget)?;
         }
+
+        Some(())
     }
 
     fn get_string(&self, entry_id: i32, sibling_id: i32) -> Option<String> {
@@ -200,15 +230,13 @@ impl Dictionary {
 
         if entry.flag == 0 {
             let pos = (entry.offset / 2) as i32 + sibling_id;
-            if pos as usize > self.header.chara.len() {
+            let chara = *self.header.chara.get(pos as usize)?;
+
+            if chara == 0 {
                 return None;
             }
 
-            if self.header.chara[pos as usize] == 0 {
-                return None;
-            }
-
-            return Some(vec![self.header.chara[pos as usize]]);
+            return Some(vec![chara]);
         }
 
         let begin = entry.offset / 2;
@@ -218,7 +246,7 @@ impl Dictionary {
             end += 1;
         }
 
-        Some(self.header.word[begin as usize..end as usize].to_vec())
+        Some(self.header.word.get(begin as usize..end as usize)?.to_vec())
     }
 }
 
